@@ -566,3 +566,90 @@ def _rb_mul(*a):
 
 
 _REBUILD.update({"+": _rb_add, "-": _rb_sub, "*": _rb_mul, "nlmul": _rb_mul, "div": Div, "mod": Mod})
+
+
+# ----- sequence abstraction (sound weakening): every (Seq T) becomes an uninterpreted sort and every seq.* operator an
+# uninterpreted function, with a few facts of the real theory kept.  A VC that is unsat under the abstraction is unsat in the
+# sequence theory.  Used as a portfolio stage because quantified reasoning over seq.nth is what both solvers are worst at.
+def _mangle(s):
+    return re.sub(r"[^A-Za-z0-9]+", "_", s).strip("_")
+
+
+def abs_sort(s: str) -> str:
+    prev = None
+    while prev != s:
+        prev = s
+        s = re.sub(r"\(Seq ((?:[^()]|\([^()]*\))*)\)", lambda m: "ASeq_" + _mangle(m.group(1)), s)
+    return s
+
+
+class SeqAbstraction:
+    def __init__(self):
+        self.funs = {}  # name -> (argsorts, ressort)
+        self.sorts = set()
+        self.elem = {}  # abstract sort -> element sort (abstracted)
+
+    def sort(self, s):
+        a = abs_sort(s)
+        for m in re.findall(r"ASeq_[A-Za-z0-9_]+", a):
+            self.sorts.add(m)
+        return a
+
+    def render(self, t: Term) -> str:
+        op = t.op
+        if op in ("forall", "exists"):
+            bs = " ".join(f"({n} {self.sort(s)})" for n, s in t.binders)
+            body = self.render(t.args[0])
+            if t.patterns:
+                pats = " ".join(":pattern (" + " ".join(self.render(p) for p in pat) + ")" for pat in t.patterns)
+                body = f"(! {body} {pats})"
+            return f"({op} ({bs}) {body})"
+        if op == "#int":
+            n = t.args[0]
+            return str(n) if n >= 0 else f"(- {-n})"
+        if op in ("#var", "#const"):
+            return t.args[0]
+        if op == "#as":
+            if t.args[0] == "seq.empty":
+                ss = self.sort(t.sort)
+                name = "aempty_" + ss
+                self.funs[name] = ([], ss)
+                self.elem[ss] = self.sort(seq_elem_sort(t.sort))
+                return name
+            return f"(as {t.args[0]} {self.sort(t.sort)})"
+        if op.startswith("seq."):
+            seqsort = t.sort if op == "seq.unit" else t.args[0].sort
+            ss = self.sort(seqsort)
+            self.elem[ss] = self.sort(seq_elem_sort(seqsort))
+            name = "a" + op[4:].replace("++", "cat").replace(".", "_") + "_" + ss
+            self.funs[name] = ([self.sort(a.sort) for a in t.args], self.sort(t.sort))
+            return "(" + name + " " + " ".join(self.render(a) for a in t.args) + ")"
+        if not t.args:
+            return op
+        return "(" + op + " " + " ".join(self.render(a) for a in t.args) + ")"
+
+    def declarations(self):
+        """function declarations and the facts of the real theory that are kept (to be emitted after the datatypes)"""
+        out = []
+        for ss in sorted(self.sorts):
+            el = self.elem.get(ss)
+            if el is None:
+                continue
+            self.funs.setdefault("alen_" + ss, ([ss], "Int"))
+        for name, (args, res) in sorted(self.funs.items()):
+            out.append(f"(declare-fun {name} ({' '.join(args)}) {res})")
+        for ss in sorted(self.sorts):
+            if "alen_" + ss in self.funs:
+                out.append(f"(assert (forall ((s {ss})) (! (>= (alen_{ss} s) 0) :pattern ((alen_{ss} s)))))")
+            if "aempty_" + ss in self.funs:
+                out.append(f"(assert (= (alen_{ss} aempty_{ss}) 0))")
+            if "aunit_" + ss in self.funs and "alen_" + ss in self.funs:
+                el = self.elem[ss]
+                out.append(f"(assert (forall ((x {el})) (! (= (alen_{ss} (aunit_{ss} x)) 1) :pattern ((aunit_{ss} x)))))")
+                if "anth_" + ss in self.funs:
+                    out.append(f"(assert (forall ((x {el})) (! (= (anth_{ss} (aunit_{ss} x) 0) x) :pattern ((aunit_{ss} x)))))")
+            if "acat_" + ss in self.funs:
+                out.append(f"(assert (forall ((a {ss}) (b {ss})) (! (= (alen_{ss} (acat_{ss} a b)) (+ (alen_{ss} a) (alen_{ss} b))) :pattern ((acat_{ss} a b)))))")
+                if "anth_" + ss in self.funs:
+                    out.append(f"(assert (forall ((a {ss}) (b {ss}) (i Int)) (! (= (anth_{ss} (acat_{ss} a b) i) (ite (< i (alen_{ss} a)) (anth_{ss} a i) (anth_{ss} b (- i (alen_{ss} a))))) :pattern ((anth_{ss} (acat_{ss} a b) i)))))")
+        return out
